@@ -8,6 +8,8 @@ from ..report import Result
 
 NEEDS = ("dev", "rel")
 DOMAINS = ["example.org", "localhost", "a.b.c.d.example", "MiXeD.Example.ORG", "bücher.example", "BÜCHER.Example", "xn--bcher-kva.example", "sub.bücher.例え.example",
+           # labels are converted independently: a capital sigma at a label boundary must not see the neighbouring label
+           "ΟΔΟΣ.example.com", "ab.Σ1.example",
            "7.2.0.192.in-addr.arpa", "1.0.0.0.0.0.0.0.0.0.0.0.0.0.0.0.0.0.0.0.0.0.0.0.8.b.d.0.1.0.0.2.ip6.arpa"]
 DIGESTS = [bytes(32), bytes([0xff] * 32), bytes(range(32)), bytes([0]) + bytes(range(1, 32)), hashlib.sha256(b"a").digest(), hashlib.sha256(b"b").digest(),
            bytes([0x30, 0x82] * 16)]
